@@ -869,6 +869,166 @@ Proof.
       * rewrite wuw_put. rewrite He'. unfold nn in Hlts. rewrite Hlts. reflexivity.
 Qed.
 
+(** ** lazy clones offered to push / insert whose Clone panics *)
+Lemma raw_action_clone_f c vv a u idx bs t0 k :
+  cfg_wf c -> VI c vv a -> dec (szn c) bs = Some t0 -> ufuse u = Some 0 -> can_take c vv 1 ->
+  match put_value c a idx (tok c (unext u)) with
+  | inl _ => exists v' u', raw_action c idx (VClone bs k) (vv, u) = Panic PUser (v', u') /\
+               VI c v' (with_xs a (match idx with None => a_xs a | Some i => firstn (N.to_nat i) (a_xs a) end)) /\
+               unext u' = unext u /\ uevents u' = uevents u
+  | inr p => raw_action c idx (VClone bs k) (vv, u) = Panic p (vv, u)
+  end.
+Proof.
+  intros Hwf HV Hd Hf Hc. assert (HV' := HV). destruct HV' as [HR Hbk Hbwf Hcap Hfits].
+  pose proof (rep_len _ _ _ HR) as Hlen. pose proof (rep_cap _ _ _ HR) as Hle.
+  assert (Hroom_of : full c a = false -> vlen vv < vcap vv \/ grow_ok c vv (vcap vv + 1)).
+  { intros Hfl. exact (vi_full_false c vv a HV Hfl Hc). }
+  assert (Hvi : forall v' xs', Rep c v' xs' -> vbk v' = vbk vv -> (vlen vv < vcap vv -> vcap v' = vcap vv) ->
+                               full c a = false -> VI c v' (with_xs a xs')).
+  { intros v' xs' HR' Hb' Hc' Hfl. constructor; cbn [with_xs a_bk a_xs]; auto; try congruence.
+    unfold full in Hfl. destruct (acap c (a_bk a)) as [cap|] eqn:Ea; [|exact I].
+    apply N.leb_gt in Hfl. rewrite Hc'; [exact Hcap|]. rewrite Hcap. lia. }
+  unfold put_value, raw_action. destruct idx as [i|].
+  - destruct (N.ltb_spec (N.of_nat (length (a_xs a))) i) as [Hoob|Hin].
+    + apply (insert_oob c vv u (a_xs a)); assumption.
+    + destruct (full c a) eqn:Hfl.
+      * destruct (vi_full_true c vv a HV Hfl) as [He Hfx].
+        apply (insert_full_fixed c vv u (a_xs a)); auto. lia.
+      * pose proof (Hroom_of eq_refl) as Hroom.
+        assert (Hi : (N.to_nat i <= length (a_xs a))%nat) by lia.
+        destruct (insert_clone_panics c vv u (a_xs a) bs t0 k (N.to_nat i) Hwf HR Hd Hf Hi Hroom)
+          as (v' & u' & E & HR' & Hn' & Hf' & He' & Hb' & Hc').
+        rewrite N2Nat.id in E. exists v', u'. split; [exact E|]. split; [apply Hvi; auto|]. auto.
+  - destruct (full c a) eqn:Hfl.
+    + destruct (vi_full_true c vv a HV Hfl) as [He Hfx].
+      apply (push_full_fixed c vv u (a_xs a)); auto.
+    + pose proof (Hroom_of eq_refl) as Hroom.
+      destruct (push_clone_panics c vv u (a_xs a) bs t0 k Hwf HR Hd Hf Hroom)
+        as (v' & u' & E & HR' & Hn' & Hf' & He' & Hb' & Hc').
+      exists v', u'. split; [exact E|]. split; [apply Hvi; auto|]. auto.
+Qed.
+
+Lemma wrep_after_panic c w st vid av idx v' u' :
+  WRep c w st -> get_a vid st = Some av ->
+  VI c v' (with_xs av (match idx with None => a_xs av | Some i => firstn (N.to_nat i) (a_xs av) end)) ->
+  WRep c (put_vec vid (Some v') u' w) (after_clone_panic st vid av idx).
+Proof.
+  intros HW Hg HV. destruct idx as [i|]; cbn [after_clone_panic].
+  - apply wrep_put; [exact HW|exact HV].
+  - intros n. unfold put_vec. cbn [wv]. rewrite slot_set_nth. destruct (Nat.eqb_spec n vid) as [->|]; [|apply HW].
+    rewrite <- get_a_slot, Hg. destruct av; exact HV.
+Qed.
+
+Lemma exec_offer_lazy_f c w st vid idx d src sidx r :
+  cfg_wf c -> WRep c w st -> ufuse (wuw w) = Some 0 -> adm_vec c w vid ->
+  sp_offer_lazy_f c st (unext (wuw w)) vid idx src sidx = Some r ->
+  res_matches_f c w ((do o <- make_offer c (SLazy d src sidx);
+                      offer_into c vid o (raw_action c idx);; ret (0, @nil N)) w) r.
+Proof.
+  intros Hwf HW Hfuse Hadm Hr. unfold sp_offer_lazy_f in Hr.
+  destruct (Nat.eqb_spec src vid) as [|Hne]; [discriminate|].
+  destruct (get_a vid st) as [av|] eqn:Hga; [|discriminate].
+  destruct (get_a src st) as [bv|] eqn:Hgb; [|discriminate].
+  destruct (wrep_get c w st vid av HW Hga) as (va & Hgva & HVa).
+  destruct (wrep_get c w st src bv HW Hgb) as (vb & Hgvb & HVb).
+  pose proof (vi_rep _ _ _ HVb) as HRb. pose proof (rep_len _ _ _ HRb) as Hlb.
+  assert (Hrefl : forall w0, wv w0 = wv w -> unext (wuw w0) = unext (wuw w) -> uevents (wuw w0) = uevents (wuw w) ->
+                  step_okf c w w0 st [] 0).
+  { intros w0 H1 H2 H3. constructor; [apply (wrep_wv c w w0 st H1 HW)|lia|exact H3]. }
+  cbn [make_offer]. unfold Interp.elem_bytes.
+  unfold bind at 1. unfold bind at 1. unfold bind at 1. rewrite (peek_vec_ok src w vb Hgvb).
+  unfold bind at 1. unfold assert_. rewrite Hlb.
+  destruct (N.ltb_spec sidx (N.of_nat (length (a_xs bv)))) as [Hlt|Hge].
+  2:{ injection Hr as <-. unfold raise.
+      cbn [res_matches_f panic_res s_out s_pk s_ret s_st s_evs s_nx].
+      split; [reflexivity|split; [reflexivity|split; [reflexivity|]]]. rewrite N.sub_diag. apply Hrefl; reflexivity. }
+  set (j := N.to_nat sidx). assert (Hj : (j < length (a_xs bv))%nat) by (unfold j; lia).
+  assert (Ej : sidx = N.of_nat j) by (unfold j; lia).
+  set (t0 := nth j (a_xs bv) 0) in *.
+  unfold ret at 1. rewrite Ej.
+  rewrite (on_vec_ok src _ w vb _ vb (wuw w) Hgvb (read_elem c vb (wuw w) (a_xs bv) j HRb Hj)).
+  set (w1 := put_vec src (Some vb) (wuw w) w).
+  unfold ret at 1. cbv zeta. fold t0.
+  set (o := {| f_ty := c_ty c; f_src := VClone (enc (szn c) t0) false; f_checked := true; f_drop := DNone |}).
+  assert (Hg1a : get_vec vid w1 = Some va).
+  { unfold w1. rewrite get_vec_put_other' by congruence. exact Hgva. }
+  assert (HW1 : WRep c w1 st) by (apply (wrep_put_same c w st src vb bv); assumption).
+  pose proof (raw_action_clone_f c va av (wuw w1) idx (enc (szn c) t0) t0 false Hwf HVa
+                (dec_enc _ _ (elem_tok c vb bv j HVb Hj)) Hfuse (Hadm va Hgva)) as Hspec.
+  assert (Hnx1 : unext (wuw w1) = unext (wuw w)) by reflexivity. rewrite Hnx1 in Hspec.
+  unfold offer_into, unwinding.
+  unfold bind at 1. unfold bind at 1. unfold on_unwind. rewrite offer_check_pass by reflexivity. cbn [f_src o].
+  destruct (put_value c av idx (tok c (unext (wuw w)))) as [xs'|p]; injection Hr as <-.
+  - destruct Hspec as (v' & u' & E & HV' & Hn' & He').
+    rewrite (on_vec_panic vid _ w1 va PUser v' u' Hg1a E).
+    unfold quiet, drop_offer. cbn [f_drop o]. unfold ret. cbn [wuw wv ulog unext ufuse].
+    cbn [res_matches_f panic_res s_out s_pk s_ret s_st s_evs s_nx].
+    split; [reflexivity|split; [reflexivity|split; [reflexivity|]]]. rewrite N.sub_diag.
+    constructor; cbn [wuw wv ulog unext ufuse].
+    + apply (wrep_wv c (put_vec vid (Some v') u' w1)); [reflexivity|]. apply wrep_after_panic; assumption.
+    + rewrite wuw_put. cbn [disarm unext]. rewrite Hn'. lia.
+    + rewrite wuw_put. unfold uevents in *. cbn [disarm ulog]. rewrite He'. reflexivity.
+  - rewrite (on_vec_panic vid _ w1 va p va (wuw w1) Hg1a Hspec).
+    unfold quiet, drop_offer. cbn [f_drop o]. unfold ret. cbn [wuw wv ulog unext ufuse].
+    cbn [res_matches_f panic_res s_out s_pk s_ret s_st s_evs s_nx].
+    split; [reflexivity|split; [reflexivity|split; [reflexivity|]]]. rewrite N.sub_diag.
+    constructor; cbn [wuw wv ulog unext ufuse].
+    + apply (wrep_wv c (put_vec vid (Some va) (wuw w1) w1)); [reflexivity|].
+      apply (wrep_put_same c w1 st vid va av); assumption.
+    + unfold w1. rewrite !wuw_put. destruct (wuw w); cbn; lia.
+    + unfold w1. rewrite !wuw_put. unfold uevents. destruct (wuw w); reflexivity.
+Qed.
+
+Lemma exec_offer_userlazy_f c w st vid idx d r :
+  cfg_wf c -> WRep c w st -> ufuse (wuw w) = Some 0 -> adm_vec c w vid ->
+  sp_offer_userlazy_f c st (unext (wuw w)) vid idx = Some r ->
+  res_matches_f c w ((do o <- make_offer c (SLazyUser d);
+                      offer_into c vid o (raw_action c idx);; ret (0, @nil N)) w) r.
+Proof.
+  intros Hwf HW Hfuse Hadm Hr. unfold sp_offer_userlazy_f in Hr.
+  destruct (get_a vid st) as [av|] eqn:Hga; [|discriminate].
+  destruct (wrep_get c w st vid av HW Hga) as (va & Hgva & HVa).
+  cbv zeta in Hr.
+  set (t := tok c (unext (wuw w))) in *.
+  set (o := {| f_ty := c_ty c; f_src := VClone (enc (szn c) t) true; f_checked := true; f_drop := DAfter t |}).
+  assert (Emk : make_offer c (SLazyUser d) w = Ok o (bump w)) by reflexivity.
+  unfold bind at 1. rewrite Emk.
+  set (w0 := bump w).
+  assert (Hg0 : get_vec vid w0 = Some va) by exact Hgva.
+  assert (Hnx0 : unext (wuw w0) = unext (wuw w) + 1) by reflexivity.
+  assert (Hf0 : ufuse (wuw w0) = Some 0) by exact Hfuse.
+  pose proof (raw_action_clone_f c va av (wuw w0) idx (enc (szn c) t) t true Hwf HVa
+                (dec_enc _ _ (tok_tok_ok c _)) Hf0 (Hadm va Hgva)) as Hspec.
+  rewrite Hnx0 in Hspec.
+  unfold offer_into, unwinding.
+  unfold bind at 1. unfold bind at 1. unfold on_unwind. rewrite offer_check_pass by reflexivity. cbn [f_src o].
+  destruct (put_value c av idx (tok c (unext (wuw w) + 1))) as [xs'|p]; injection Hr as <-.
+  - destruct Hspec as (v' & u' & E & HV' & Hn' & He').
+    rewrite (on_vec_panic vid _ w0 va PUser v' u' Hg0 E).
+    unfold quiet, drop_offer. cbn [f_drop o]. unfold harness_drop.
+    cbn [res_matches_f panic_res s_out s_pk s_ret s_st s_evs s_nx].
+    assert (Hrep : WRep c (put_vec vid (Some v') u' w0) (after_clone_panic st vid av idx)).
+    { apply wrep_after_panic; [apply wrep_bump; exact HW|exact Hga|exact HV']. }
+    destruct (c_dg c) eqn:Hdg; unfold emitw, ret; cbn [wuw wv put_vec ulog unext ufuse disarm emit res_matches_f];
+      (split; [reflexivity|split; [reflexivity|split; [reflexivity|]]]);
+      constructor; cbn [wuw wv ulog unext ufuse panic_res s_nx s_evs s_st];
+      try (apply (wrep_wv c (put_vec vid (Some v') u' w0)); [reflexivity|exact Hrep]);
+      try (rewrite Hn'; unfold w0, bump; cbn [wuw unext]; lia);
+      try (unfold uevents in *; cbn [ulog filter is_user_event]; rewrite He'; unfold drop_ev; rewrite Hdg;
+           unfold w0, bump; cbn [wuw ulog rev app]; reflexivity).
+  - rewrite (on_vec_panic vid _ w0 va p va (wuw w0) Hg0 Hspec).
+    unfold quiet, drop_offer. cbn [f_drop o]. unfold harness_drop.
+    cbn [res_matches_f panic_res s_out s_pk s_ret s_st s_evs s_nx].
+    assert (Hrep : WRep c (put_vec vid (Some va) (wuw w0) w0) st).
+    { apply (wrep_put_same c w0 st vid va av); [apply wrep_bump; exact HW|exact Hga|exact HVa]. }
+    destruct (c_dg c) eqn:Hdg; unfold emitw, ret; cbn [wuw wv put_vec ulog unext ufuse disarm emit res_matches_f];
+      (split; [reflexivity|split; [reflexivity|split; [reflexivity|]]]);
+      constructor; cbn [wuw wv ulog unext ufuse panic_res s_nx s_evs s_st];
+      try (apply (wrep_wv c (put_vec vid (Some va) (wuw w0) w0)); [reflexivity|exact Hrep]);
+      try (unfold w0, bump; cbn [wuw unext]; lia);
+      try (unfold uevents, drop_ev; rewrite Hdg; unfold w0, bump; cbn [wuw ulog filter is_user_event rev app]; reflexivity).
+Qed.
+
 Lemma exec_fused c w st k o r :
   cfg_wf c -> WRep c w st -> ufuse (wuw w) = Some k ->
   spec_step_f c st (unext (wuw w)) (Some k) o = Some r -> admissible c w o ->
@@ -879,6 +1039,14 @@ Proof.
   - (* ODropVec *)
     destruct (sp_clear_f c st (unext (wuw w)) v k) as [r0|] eqn:E0; [|discriminate]. injection Hr as <-.
     exact (exec_dropvec_f c w st v k r0 HW Hfuse E0).
+  - (* OPush *) destruct a; [|discriminate]. cbn [admissible] in Hadm. cbn [exec].
+    destruct s; try discriminate; destruct (N.eqb_spec k 0) as [->|]; try discriminate.
+    + exact (exec_offer_lazy_f c w st v None depth vid idx r Hwf HW Hfuse Hadm Hr).
+    + exact (exec_offer_userlazy_f c w st v None depth r Hwf HW Hfuse Hadm Hr).
+  - (* OInsert *) destruct a; [|discriminate]. cbn [admissible] in Hadm. cbn [exec].
+    destruct s; try discriminate; destruct (N.eqb_spec k 0) as [->|]; try discriminate.
+    + exact (exec_offer_lazy_f c w st v (Some idx) depth vid idx0 r Hwf HW Hfuse Hadm Hr).
+    + exact (exec_offer_userlazy_f c w st v (Some idx) depth r Hwf HW Hfuse Hadm Hr).
   - (* OPop *) destruct k0; try discriminate.
     exact (exec_take_drop_f c w st a v TPop 0 k r Hwf HW Hfuse (fun _ => eq_refl) Hr).
   - (* ORemove *) destruct k0; try discriminate.
@@ -903,7 +1071,25 @@ Proof.
     destruct (sp_take c st nx v tk idx KDrop) as [r0|] eqn:E0; [|discriminate]. apply sp_take_nx in E0.
     destruct (c_dg c && (k =? 0) && (s_out r0 =? 0)); [|injection Ht as <-; exact E0].
     destruct (get_a v st); [|discriminate]. injection Ht as <-. cbn; split; lia. }
-  destruct o; try discriminate; try (destruct k0; try discriminate; eapply Htd; exact H).
+  assert (Hlz : forall v idx src sidx, sp_offer_lazy_f c st nx v idx src sidx = Some r -> nx <= s_nx r /\ s_out r < 100).
+  { intros v idx src sidx Hl. unfold sp_offer_lazy_f in Hl.
+    repeat match type of Hl with
+    | Some _ = Some _ => injection Hl as <-
+    | None = Some _ => discriminate Hl
+    | context [match ?x with _ => _ end] => destruct x eqn:?
+    | context [if ?x then _ else _] => destruct x eqn:?
+    end; cbn; split; lia. }
+  assert (Hulz : forall v idx, sp_offer_userlazy_f c st nx v idx = Some r -> nx <= s_nx r /\ s_out r < 100).
+  { intros v idx Hl. unfold sp_offer_userlazy_f in Hl. cbv zeta in Hl.
+    repeat match type of Hl with
+    | Some _ = Some _ => injection Hl as <-
+    | None = Some _ => discriminate Hl
+    | context [match ?x with _ => _ end] => destruct x eqn:?
+    | context [if ?x then _ else _] => destruct x eqn:?
+    end; cbn; split; lia. }
+  destruct o; try discriminate; try (destruct k0; try discriminate; eapply Htd; exact H);
+    try (destruct a; [|discriminate]; destruct s; try discriminate; destruct (k =? 0); try discriminate;
+         [eapply Hlz; exact H|eapply Hulz; exact H]).
   - destruct (sp_clear_f c st nx v k) as [r0|] eqn:E0; [|discriminate]. injection H as <-. cbn [s_nx s_out].
     unfold sp_clear_f in E0. destruct (get_a v st) as [av|]; [|discriminate]. cbv zeta in E0.
     destruct (c_dg c && (k <? N.of_nat (length (a_xs av)))); injection E0 as <-; cbn; split; lia.
@@ -1017,7 +1203,11 @@ Definition exf_ops : list (option N * op) :=
     (Some 1, OSplice Erased 2 (BIncluded 1) (BExcluded 3) [] FinDrop RWrap 2 None 2);   (* A: the second destructor of the range panics *)
     (None, OPush Erased 2 SWrap); (None, OPush Erased 2 SWrap); (None, OPush Erased 2 SWrap);
     (Some 2, OSplice Typed 2 (BIncluded 1) (BExcluded 2) [] FinDrop RWrap 3 None 3);    (* B: the second call of next() panics *)
-    (Some 9, OSplice Erased 2 BUnbounded BUnbounded [] FinDrop RBox 1 None 1) ].        (* C: nothing panics *)
+    (Some 9, OSplice Erased 2 BUnbounded BUnbounded [] FinDrop RBox 1 None 1);          (* C: nothing panics *)
+    (None, ONew 3 BHeap); (None, OPush Erased 3 SWrap); (None, OPush Erased 3 SWrap);
+    (Some 0, OPush Erased 3 (SLazy 1 2 0));        (* the Clone of the lazy clone panics: nothing is created, nothing changes *)
+    (Some 0, OInsert Erased 3 1 (SLazy 2 2 0));    (* ... inside insert: the tail behind the insertion point stays hidden *)
+    (Some 0, OInsert Erased 3 0 (SLazyUser 1)) ].  (* ... of a value the caller owns: that value is destroyed by the caller *)
 Example exf_outcomes :
   map (fun r => (s_out r, s_pk r, s_evs r, map (fun o => match o with Some a => a_xs a | None => [] end) (s_st r)))
       (match spec_run_f ex_cfg [] 1 exf_ops with Some rs => rs | None => [] end)
@@ -1035,7 +1225,9 @@ Example exf_outcomes :
      (2,8,[EDrop 19; EDrop 20; EDrop 22; EDrop 23],[[]; []; [18]]);
      (0,0,[],[[]; []; [18;24]]); (0,0,[],[[]; []; [18;24;25]]); (0,0,[],[[]; []; [18;24;25;26]]);
      (2,8,[EDrop 24; ENext; ENext; EDrop 28; EDrop 29],[[]; []; [18]]);
-     (0,0,[EDrop 18; ENext],[[]; []; [30]])].
+     (0,0,[EDrop 18; ENext],[[]; []; [30]]);
+     (0,0,[],[[]; []; [30]; []]); (0,0,[],[[]; []; [30]; [31]]); (0,0,[],[[]; []; [30]; [31;32]]);
+     (2,8,[],[[]; []; [30]; [31;32]]); (2,8,[],[[]; []; [30]; [31]]); (2,8,[EDrop 33],[[]; []; [30]; []])].
 Proof. vm_compute. reflexivity. Qed.
 Fixpoint Admissible_fb (c : cfg) (w : world) (ops : list (option N * op)) : bool :=
   match ops with
